@@ -129,14 +129,16 @@ func c02Build(shape int, b bool, sets [][2]interface{}, late bool, charset strin
 	if v, ok := val(12); ok {
 		po = append(po, mail.WithPartContentDescription(v))
 	}
-	m.SetBodyString(mail.TypeTextPlain, "plain body\r\n", po...)
-	if shape >= 1 {
+	if shape < 3 {
+		m.SetBodyString(mail.TypeTextPlain, "plain body\r\n", po...)
+	}
+	if shape >= 1 && shape < 3 {
 		m.AddAlternativeString(mail.TypeTextHTML, "<p>html body</p>\r\n", po...)
 	}
 	prod := func(content string) *mail.File {
 		return &mail.File{Header: textproto.MIMEHeader{}, Writer: producer2([]byte(content))}
 	}
-	needFiles := shape == 2
+	needFiles := shape >= 2
 	for _, id := range []int{9, 10, 11, 13} {
 		if _, ok := val(id); ok {
 			needFiles = true
@@ -162,8 +164,18 @@ func c02Build(shape int, b bool, sets [][2]interface{}, late bool, charset strin
 		if v, ok := val(11); ok {
 			emb.Desc = v
 		}
-		m.SetAttachments([]*mail.File{att})
-		m.SetEmbeds([]*mail.File{emb})
+		switch shape {
+		case 3: // nothing but one attachment: its headers are the top-level headers of the message
+			if v, ok := val(13); ok {
+				mail.WithFileContentID(v)(att)
+			}
+			m.SetAttachments([]*mail.File{att})
+		case 4: // nothing but one embed
+			m.SetEmbeds([]*mail.File{emb})
+		default:
+			m.SetAttachments([]*mail.File{att})
+			m.SetEmbeds([]*mail.File{emb})
+		}
 	}
 	if late {
 		_, _ = m.WriteTo(io.Discard)
@@ -642,7 +654,7 @@ func init() {
 	vf.Register(&vf.Check{
 		ID: "C02", Title: "no caller-supplied text can alter the header block",
 		Run: func(r *vf.Run) {
-			r.SetRule("17 text-accepting setters (subject, generic header (SetGenHeader and its deprecated alias SetHeader), From/To/Cc/Reply-To and Disposition-Notification-To display names, message-id, organisation, user-agent, attachment and embed file names, file and part descriptions, content-id) × values {every byte 0..255 at start/middle/end of a carrier; all 2-grams (thorough: 3-grams) over 16 dangerous symbols CR LF NUL TAB SP \" \\ < > : ; = ? 0x80 0xFF ü; lengths 0,1,74..79,200,1000; classic injection payloads; values that as a whole look like one RFC 2047 encoded-word with every 2-gram of the symbols inside the wrapper} × header encoder {Q, B, and whatever go-mail uses for 8bit / 7bit messages} × shape {single part, alternative, mixed+related} × message charset {UTF-8 (all), US-ASCII, ISO-8859-1, UTF-7}, alone, (2-grams) in pairs of setters, and — for the file and part attributes — applied to the existing File / Part objects after a first rendering (second rendering judged); oracle is differential: every header section must have exactly the field names of the same message built with a benign value, bodies unchanged, and the value must decode back (RFC 2047, WSP-normalised; file names after the documented '_' replacement) unless the setter returned an error; distinct by case tuple")
+			r.SetRule("17 text-accepting setters (subject, generic header (SetGenHeader and its deprecated alias SetHeader), From/To/Cc/Reply-To and Disposition-Notification-To display names, message-id, organisation, user-agent, attachment and embed file names, file and part descriptions, content-id) × values {every byte 0..255 at start/middle/end of a carrier; all 2-grams (thorough: 3-grams) over 16 dangerous symbols CR LF NUL TAB SP \" \\ < > : ; = ? 0x80 0xFF ü; lengths 0,1,74..79,200,1000; classic injection payloads; values that as a whole look like one RFC 2047 encoded-word with every 2-gram of the symbols inside the wrapper} × header encoder {Q, B, and whatever go-mail uses for 8bit / 7bit messages} × shape {single part, alternative, mixed+related; for the file attributes also a message that is nothing but one attachment / one embed} × message charset {UTF-8 (all), US-ASCII, ISO-8859-1, UTF-7}, alone, (2-grams) in pairs of setters, and — for the file and part attributes — applied to the existing File / Part objects after a first rendering (second rendering judged); oracle is differential: every header section must have exactly the field names of the same message built with a benign value, bodies unchanged, and the value must decode back (RFC 2047, WSP-normalised; file names after the documented '_' replacement) unless the setter returned an error; distinct by case tuple")
 			r.Assume("*Preformatted setters are raw by contract and excluded", "header names, content types and charsets are typed constants, not free text",
 				"message-id / content-id values are only compared when they are printable ASCII without blanks and angle brackets")
 			vals := c02Values(r.Thorough)
@@ -679,6 +691,20 @@ func init() {
 							continue
 						}
 						cases = append(cases, c02Case{Setter: s, Value: v, Shape: (vi + s) % 3, Setter2: -1, MEnc: me})
+					}
+				}
+			}
+			// a message that is nothing but one attachment / one embed: the file's headers are written at the top level
+			for _, s := range []int{9, 10, 11, 13} {
+				for vi, v := range vals {
+					for shape := 3; shape <= 4; shape++ {
+						if s == 9 && shape == 4 || s == 10 && shape == 3 {
+							continue
+						}
+						if !r.Thorough && vi >= 768 && (vi+s+shape)%3 != 0 {
+							continue
+						}
+						cases = append(cases, c02Case{Setter: s, Value: v, Shape: shape, B: vi%2 == 0, Setter2: -1})
 					}
 				}
 			}
